@@ -180,6 +180,13 @@ def r2(ctx):
         for t in tests_ok:
             aw = [a for a in drain.awaits_between(t, wn) if a.id != wn.id]
             ctx.check(not aw, R, "_drain_message_queue:no-await-between-expiry-test-and-write", m, wcall, "nothing is awaited between the expiry test and the call of _write", f"await at line {aw[0].lineno}" if aw else "")
+    # _write refuses with ValueError only when there is no writer at all: that exception means "cannot be encoded" to the caller,
+    # which drops the message for good - a connection condition (writer closing) must surface as an OSError so that the
+    # message is re-queued
+    wr_raises = [n for n in wr.cfg.nodes if n.kind == "stmt" and isinstance(n.ast, ast.Raise) and n.ast.exc is not None]
+    absent = [wr.branch(t, "false" if present == "true" else "true").id for t, present in wr.presence("self._writer")]
+    loose = [n for n in wr_raises if not any(wr.cfg.dominates(b_, n.id) for b_ in absent)]
+    ctx.check(not loose, R, "_write:refuses-only-without-a-writer", m, (loose[0].ast if loose else wr.node), "_write raises of its own accord only when no writer is stored", f"`{norm_text(loose[0].ast)[:70]}` (line {loose[0].lineno}) is also reached for a connection condition: the popped message is then discarded as unencodable instead of being retried" if loose else "")
     # expiry fixed at acceptance
     swh = sock_fn(ctx, "send_with_header")
     for n, call in swh.calls("_MessageQueueEntry"):
@@ -310,6 +317,7 @@ def r5(ctx):
             ok = (polname in POLICIES and polq.startswith(SOCKET)) or local
             ctx.check(ok, R, label, m, call, "a command is sent with one of the three socket policies (selection checked by R6)", polq or unparse(pol))
             if ok and not local and qual.split(".")[-1] != "check_for_updates":
+                ctx.check(polname != "RETRY_NON_IDEMPOTENT", R, label + ":idempotent-command-keeps-retries", m, call, "a command sent with a fixed policy is an absolute one (timers, quick timers): it keeps RETRY_IDEMPOTENT, so a single transient write failure does not lose it (the no-retry policy is chosen per call by the four senders of R6)", polq)
                 ctx.check(polname != "RETRY_CONNECTED", R, label + ":command-lifetime", m, call, "a command keeps its 30 s lifetime (RETRY_IDEMPOTENT / RETRY_NON_IDEMPOTENT): the 1 s connected-only policy is for requests whose answer would be stale - a command sent with it is silently dropped by one write failure or a short outage", polq)
 
 
